@@ -24,7 +24,8 @@ type DiffMeta struct {
 	QVars   []int64      `json:"qvars"` // the variables that are compared (default: all 0..NVars-1)
 	// Unordered: answers are compared as a multiset (used where the property leaves the order of
 	// solutions open, e.g. the order of bagof/setof groups); only for runs the reference completed.
-	Unordered bool `json:"unordered,omitempty"`
+	Unordered bool        `json:"unordered,omitempty"`
+	Flags     [][2]string `json:"flags,omitempty"`
 }
 
 // qvars returns the ids of the compared query variables.
@@ -67,9 +68,14 @@ func programText(cl []*term.Term) string {
 }
 
 func (d *DiffMeta) item() *Item {
-	c := &proto.Case{Kind: "prolog"}
+	c := &proto.Case{Kind: "prolog", Flags: d.Flags}
 	if d.Assert {
 		for _, cl := range d.Program {
+			if cl.IsCmp("-->", 2) {
+				// grammar rules take the expand_term/2 path and are then asserted
+				c.Setup = append(c.Setup, ":- expand_term("+term.Text(cl, cvar)+", C), assertz(C).")
+				continue
+			}
 			if cl.IsCmp(":-", 1) {
 				c.Setup = append(c.Setup, term.Text(cl, cvar)+".")
 			} else {
